@@ -666,7 +666,7 @@ def run_eval(lines, tag="c08"):
         fh.write("\n".join(lines) + "\n")
     rc, out, err = vlib.harness_run("geom", ["eval", "--file", path])
     os.remove(path)
-    return [l for l in out.split("\n") if l.startswith("pair ") or l.startswith("set ")]
+    return [l for l in out.split("\n") if l.startswith("pair ") or l.startswith("set ") or l.startswith("seq ")]
 
 
 def eval_pair(a, b, cfg="replay"):
@@ -724,6 +724,97 @@ REPLAY_CMD = ("printf '%s\\n' > /tmp/c08.txt && /verif/.cache/target/release/geo
               "# or: ./check C08 --replay <this file>")
 
 
+
+# --------------------------------------------------------------------------------------------------
+# API sequences: the reported values must be a function of the box's CURRENT fields (key C08:stale-vertex-cache)
+
+KEY_STALE = "C08:stale-vertex-cache"
+OP_NAMES = {"G": "gen_vertices()", "R": "rotate_mut(%s)", "r": "x = x.rotate(%s)", "X": "x.xc = %s", "Y": "x.yc = %s",
+            "A": "x.aspect = %s", "H": "x.height = %s", "N": "x.angle = None", "a": "x.angle = Some(%s)",
+            "C": "x = x.clone()", "S": "set_confidence(0.5)"}
+
+
+def parse_seq(line):
+    toks = line.split()
+    d = dict(t.split("=", 1) for t in toks[2:6])
+    rest = line.split(" cura=")[1]
+    cura, rest = rest.split(" curb=")
+    curb, rest = rest.split(" D=")
+    D, F = rest.split(" F=")
+    kv = lambda x: dict(t.split("=", 1) for t in x.strip().split(";"))
+    return {"a": d["a"], "opsa": d["opsa"], "b": d["b"], "opsb": d["opsb"], "cura": cura, "curb": curb,
+            "D": kv(D), "F": kv(F), "raw": line}
+
+
+def seq_line(a, opsa, b, opsb):
+    return "seq a=%s opsa=%s b=%s opsb=%s" % (a, opsa or "-", b, opsb or "-")
+
+
+def seq_diff(q):
+    """observables on which the mutated box and the fresh box with the same fields differ (clipmv apart)"""
+    return [k for k in q["D"] if q["D"][k] != q["F"].get(k) and k != "clipmv"]
+
+
+def cache_stale_at_end(ops, angle_some=True):
+    """does the sequence end with generated vertices that no longer describe the fields (as the code stands: clone()
+    and rotate() drop the cache, nothing else does)"""
+    cached = stale = False
+    for o in ([] if ops == "-" else ops.split(",")):
+        c = o[0]
+        if c == "G":
+            if angle_some and not cached:
+                cached, stale = True, False
+        elif c in "rC":
+            cached = stale = False
+        elif c in "RXYAHNa":
+            if c == "N":
+                angle_some = False
+            if c in "Ra":
+                angle_some = True
+            if cached:
+                stale = True
+    return stale
+
+
+def describe_ops(ops):
+    out = []
+    for o in ([] if ops == "-" else ops.split(",")):
+        t = OP_NAMES[o[0]]
+        out.append(t % float(F32(int(o[2:]))) if "%s" in t else t)
+    return out
+
+
+def shrink_seq(q):
+    a, b = q["a"], q["b"]
+    opsa = [] if q["opsa"] == "-" else q["opsa"].split(",")
+    opsb = [] if q["opsb"] == "-" else q["opsb"].split(",")
+
+    d0 = seq_diff(q)
+    target = next((k for k in ("iou", "inter", "iou_ba", "inter_ba", "iouv", "iou_self", "tf", "own", "clipc", "verts") if k in d0), d0[0])
+
+    def fails(oa, ob):
+        ls = [l for l in run_eval([seq_line(a, ",".join(oa), b, ",".join(ob))]) if l.startswith("seq ")]
+        return bool(ls) and target in seq_diff(parse_seq(ls[0]))
+    if fails(opsa, []):
+        opsb = []
+    changed = True
+    while changed:
+        changed = False
+        for i in range(len(opsa)):
+            cand = opsa[:i] + opsa[i + 1:]
+            if fails(cand, opsb):
+                opsa, changed = cand, True
+                break
+        if changed:
+            continue
+        for i in range(len(opsb)):
+            cand = opsb[:i] + opsb[i + 1:]
+            if fails(opsa, cand):
+                opsb, changed = cand, True
+                break
+    return ",".join(opsa) or "-", ",".join(opsb) or "-"
+
+
 # --------------------------------------------------------------------------------------------------
 
 
@@ -743,6 +834,16 @@ def run(chk):
     rc, out, err = vlib.harness_run("geom", ["pairs", "--seed", chk.seed, "--n", n_oracle])
     cases = [parse_pair(l) for l in out.split("\n") if l.startswith("pair ")]
     chk.log("implementation ran %d box pairs" % len(cases))
+    # API sequences (gen_vertices, then mutations / clones): dirty box vs fresh box with the same fields, bit for bit;
+    # the fresh pairs join the ordinary stream (oracles + model)
+    n_seq = 1200 if chk.tier == "quick" else 12000
+    rc, out, err = vlib.harness_run("geom", ["seqs", "--seed", chk.seed, "--n", n_seq])
+    seqs = [parse_seq(l) for l in out.split("\n") if l.startswith("seq ")]
+    stale = [q for q in seqs if seq_diff(q)]
+    by_move_only = sum(1 for q in seqs if not seq_diff(q) and q["D"].get("clipmv") != q["F"].get("clipmv"))
+    extra = run_eval([pair_line("seq", q["cura"], q["curb"]) for q in seqs[:(400 if chk.tier == "quick" else 3000)]])
+    cases += [parse_pair(l) for l in extra if l.startswith("pair ")]
+    chk.log("API sequences: %d run, %d with a stale observable, %d stale only through the by-move clip method" % (len(seqs), len(stale), by_move_only))
 
     hist = Counter()
     stats = Counter()
@@ -840,6 +941,14 @@ def run(chk):
         "samples": [c["raw"][:300] for c in cases[6:9]],
         "input_distribution": dict(hist),
         "counts": dict(stats),
+        "api_sequences": len(seqs),
+        "api_sequences_ending_with_outdated_cached_vertices": sum(1 for q in seqs if cache_stale_at_end(q["opsa"], parse_box(q["a"])["angle"] is not None)
+                                                                  or cache_stale_at_end(q["opsb"], parse_box(q["b"])["angle"] is not None)),
+        "api_sequences_stale": len(stale),
+        "api_sequences_stale_only_in_by_move_clip_method": by_move_only,
+        "note_by_move_clip_method": "Universal2DBox::sutherland_hodgman_clip(self, other) called on a box whose vertices were generated and whose "
+                                    "fields / angle were changed afterwards clips the OLD polygon (the cache is never invalidated); it returns a polygon, "
+                                    "not the area / IoU that C08 speaks about, so it is counted here and reported to the maintainers, not raised as a violation",
         "oracle_failures": len(failing),
         "oracle_failures_in_known_family": sum(1 for f in failing if f[2]),
         "model_vs_impl_disagreements": len(disagreements),
@@ -869,6 +978,23 @@ def run(chk):
                                           "inter": None if rr["inter"] is None else float(rr["inter"])},
                        "failing_pairs_in_this_run": len(group),
                        "replay_cmd": REPLAY_CMD % line, "broken": chk.broken})
+    if stale:
+        pri = ("iou", "inter", "iou_ba", "inter_ba", "iouv", "iou_self", "tf", "own", "clipc", "verts")
+        q = min(stale, key=lambda x: min(pri.index(k) if k in pri else 99 for k in seq_diff(x)))
+        oa, ob = shrink_seq(q)
+        ls = [l for l in run_eval([seq_line(q["a"], oa, q["b"], ob)]) if l.startswith("seq ")]
+        qq = parse_seq(ls[0]) if ls else q
+        diff = seq_diff(qq)
+        line = seq_line(q["a"], oa, q["b"], ob)
+        chk.violation(KEY_STALE, "a box mutated after gen_vertices() does not report the values of its current fields: "
+                      + "; ".join("%s is %s but a fresh box with the same fields gives %s" % (k, qq["D"][k][:40], qq["F"][k][:40]) for k in diff[:3]),
+                      {"input": line,
+                       "api_sequence": {"box_a": decoded(parse_box(q["a"])), "then": describe_ops(oa),
+                                        "box_b": decoded(parse_box(q["b"])), "then_b": describe_ops(ob)},
+                       "current_fields": {"a": decoded(parse_box(qq["cura"])), "b": decoded(parse_box(qq["curb"]))},
+                       "differing_observables": {k: {"mutated_box": qq["D"][k][:200], "fresh_box": qq["F"][k][:200]} for k in diff},
+                       "failing_sequences_in_this_run": len(stale),
+                       "replay_cmd": REPLAY_CMD % line, "broken": chk.broken})
     if known_f:
         report(known_f, KEY_KNOWN, "rotated boxes with collinear edges: the clipper misplaces the crossing point of (numerically) parallel lines (the defect repaired by commit 04617aa is back)")
     if other_f:
@@ -892,6 +1018,13 @@ def replay(chk, path):
     vlib.harness_build(["geom"])
     ls = run_eval([rep["input"]])
     print(ls[0][:2000])
+    if ls[0].startswith("seq "):
+        q = parse_seq(ls[0])
+        diff = seq_diff(q)
+        for k in diff:
+            print("  FAIL: %s: mutated box %s, fresh box %s" % (k, q["D"][k][:80], q["F"][k][:80]))
+        print("REPRODUCED" if diff else "not reproduced")
+        return 1 if diff else 0
     r = parse_pair(ls[0])
     fails, info = oracle(r)
     print("true IoU:", float(info.get("true_iou", 0)))
